@@ -181,6 +181,17 @@ func runID(kind string, d []byte, gen string) idRec {
 				return 1, "", ""
 			}
 			return 0, hex.EncodeToString(h.ID), hex.EncodeToString(h.Encode())
+		case "headerv": // locally built header: d = encoding of the field values, aggregate commit deliberately nil
+			h0 := &blockchain.BlockHeader{}
+			if err := h0.Decode(in); err != nil {
+				return 1, "", ""
+			}
+			h, err := blockchain.NewBlockHeaderWithValues(h0.Version, h0.Timestamp, h0.Height, h0.PreviousBlockID, h0.AssetRoot, h0.StateRoot,
+				h0.MaxHeightPrevoted, h0.MaxHeightGenerated, h0.TransactionRoot, h0.GeneratorAddress, h0.ValidatorsHash, nil, h0.Signature)
+			if err != nil {
+				return 1, "", ""
+			}
+			return 0, hex.EncodeToString(h.ID), hex.EncodeToString(h.Encode())
 		case "block":
 			b, err := blockchain.NewBlock(in)
 			if err != nil {
@@ -194,7 +205,7 @@ func runID(kind string, d []byte, gen string) idRec {
 		rec.St, rec.ID, rec.Re = one(append([]byte{}, d...))
 		if rec.St == 0 {
 			re, _ := hex.DecodeString(rec.Re)
-			if kind == "block" { // second round on the header bytes
+			if kind == "block" || kind == "headerv" { // second round on the header bytes
 				kind = "header"
 			}
 			rec.St2, rec.ID2, rec.Re2 = one(re)
@@ -222,6 +233,7 @@ func genIDs(o *hx.Out, rng *hx.Rng) {
 		for j := 0; j < 4; j++ {
 			o.Put(runID("header", cx.Mutate(rng, h, 1), "mut"))
 		}
+		o.Put(runID("headerv", h, "nilagg"))
 		// a block around the header
 		w := codec.NewWriter()
 		w.WriteBytes(1, h)
